@@ -58,8 +58,21 @@ Definition F_set_race : N := 1.
 Definition F_garbage_status : N := 2.
 Definition F_shared_flight : N := 3.
 
+(* every SetCurrentRevision on the local backend must carry the revision of a successful fetch: none on the
+   leader, none when the fetch failed; the value 0 adopted from an unparsable 200 answer is finding F2 *)
+Definition set_verdict (r : role) (l : reach) (e : effects) : option N :=
+  match f_set e with
+  | None => None
+  | Some v =>
+      match r, l with
+      | Follower, ReachOk rev => ok_if (v =? rev)
+      | Follower, Garbage200 => if v =? 0 then Some F_garbage_status else Some 0
+      | _, _ => Some 0
+      end
+  end.
+
 (* the property on one observed row *)
-Definition role_row_ok (k : kind) (r : role) (l : reach) (e : effects) : option N :=
+Definition role_row_rest (k : kind) (r : role) (l : reach) (e : effects) : option N :=
   match r with
   | Leader => None
   | Follower =>
@@ -84,6 +97,12 @@ Definition role_row_ok (k : kind) (r : role) (l : reach) (e : effects) : option 
             | _, _ => None
             end
       end
+  end.
+
+Definition role_row_ok (k : kind) (r : role) (l : reach) (e : effects) : option N :=
+  match set_verdict r l e with
+  | Some c => Some c
+  | None => role_row_rest k r l e
   end.
 
 Definition tobs_fresh (x : tobs) : bool :=
